@@ -2,6 +2,7 @@ import OAuth2Model.Driver.Proto
 import OAuth2Model.Driver.Req
 import OAuth2Model.Driver.Poll
 import OAuth2Model.Driver.AuthUrl
+import OAuth2Model.Driver.Pkce
 
 def dispatch (line : String) : String :=
   match (line.trimAscii.toString.splitOn " ").filter (· ≠ "") with
@@ -11,6 +12,11 @@ def dispatch (line : String) : String :=
     | "req" => Drv.ReqOp.run args
     | "poll" => Drv.PollOp.run args
     | "authurl" => Drv.AuthUrlOp.run args
+    | "sha" => Drv.PkceOp.runSha args
+    | "pkce_from" => Drv.PkceOp.runFrom args
+    | "pkce_gen" => Drv.PkceOp.runGen args
+    | "pkce_flow" => Drv.PkceOp.runFlow args
+    | "rand" => Drv.PkceOp.runRand args
     | _ => "bad-op"
 
 partial def loop (h : IO.FS.Stream) (out : IO.FS.Stream) : IO Unit := do
